@@ -258,6 +258,19 @@ pub fn mit_handler(a: &[&str]) -> String {
     }
 }
 
+/// RCB <value>: a RefCell<Vec<u8>> that is shared-borrowed while it is encoded (a perfectly readable value): same bytes and length
+pub fn rcb_handler(a: &[&str]) -> String {
+    let cell: std::cell::RefCell<Vec<u8>> = Canon::parse(&mut P::new(a[0]));
+    let guard = cell.borrow();
+    let plain = minicbor::to_vec(&*guard).unwrap();
+    let mut verdict = Ok(());
+    let shared = minicbor::to_vec(&cell);
+    if shared.as_ref().ok() != Some(&plain) { verdict = Err("a RefCell with an outstanding shared borrow is refused or encoded differently".into()) }
+    if minicbor::len(&cell) != plain.len() { verdict = Err("cbor_len of a shared-borrowed RefCell differs".into()) }
+    drop(guard);
+    with_oracle(shared.map(|b| hex_or_dash(&b)).unwrap_or_else(|_| "refused".into()), verdict)
+}
+
 pub fn dt_handler(a: &[&str]) -> String {
     let inp = unhex(a[1]);
     let pos: usize = a.iter().skip(2).find(|t| !t.starts_with('=')).map(|p| p.parse().unwrap()).unwrap_or(0);
